@@ -489,8 +489,11 @@ def register(R):
         val = calls(tr, 'ProcessPoolDownloader._validate_all_known_args')
         nn = mon(tr, 'notify_new_transfer')
         pu = [e for e in tr if e.kind == 'ext' and e.name == 'mpqueue.put']
+        # (started before anything else; registered with the monitor before the request is queued; nothing is queued before the
+        #  argument validation has passed -- where exactly the validation sits otherwise is not a listed property)
         okorder = len(sin) == 1 and len(val) == 1 and len(nn) == 1 and len(pu) == 1 and \
-            index_of(tr, sin[0]) < index_of(tr, val[0]) < index_of(tr, nn[0]) < index_of(tr, pu[0])
+            index_of(tr, sin[0]) < min(index_of(tr, val[0]), index_of(tr, nn[0])) and index_of(tr, nn[0]) < index_of(tr, pu[0]) \
+            and index_of(tr, val[0]) < index_of(tr, pu[0])
         out = {'starts_validates_registers_then_queues_exactly_one_request': B(bool(okorder))}
         if okorder:
             req = pu[0].args[0]
